@@ -48,7 +48,7 @@ Spec == Init /\ [][Next]_st
 MutInv == st.k = "mut" => MutationLaw(Progs[st.i].ts, st.m)
 ProgInv == st.k = "prog" => /\ Len(Progs[st.i].ts) > 0
                             /\ Progs[st.i].id = st.i
-                            /\ Progs[st.i].ctx \in {"plain", "host", "top", "fn"}
+                            /\ Progs[st.i].ctx \in {"plain", "host", "top", "fn", "use"}
 OutcomeInv == /\ Admissible("any") = Outcomes
               /\ Admissible("Program") = {"Program"}
               /\ ~OutcomeStep("Text", "Panic")
